@@ -1,13 +1,16 @@
-// (copy of C20_text.cpp)
+// (C20_text.cpp plus the keyword-name checks at the end)
 // REPLAY_SEARCH
 // Native replay for C20/text and C01/linekernels: the verifier's counterexample is a ghost text buffer, so the driver
 // searches the real kernels (Parser.cpp is compiled into this driver from /repo's current source; the kernels have
 // internal linkage) on every string of length <= 6 over the alphabet { a, space, '-', ', ", /, comma } (getline: plus
 // newline) and compares with an independent reference of the contracts: strip_comments cuts at the first "--" outside
 // quotes (an unbalanced quote protects the rest of the line), trim removes separators at both ends only, getline splits
-// at the first newline.  Exit 1 = a string on which the real code disagrees (printed).
+// at the first newline.  make_deck_name is the upper-cased first word of a line; a deck with one keyword of every size
+// class parses to the same Deck whichever keyword names are written in lower case.  Exit 1 = an input on which the real
+// code disagrees (printed).
 #include <opm/input/eclipse/Parser/Parser.cpp>
 #include "replay.hpp"
+#include <cctype>
 #include <sstream>
 namespace {
 bool sep(char c) { const int x = c & 0x7f; return x == 1 || x == ' ' || x == ',' || x == '\r' || x == '\n' || x == '\t' || x == '\v' || x == '\f'; }
@@ -69,6 +72,52 @@ int main(int argc, char** argv)
         std::vector<std::string> next;
         if (len < 6) for (const auto& s : level) for (char c : alpha) next.push_back(s + c);
         level.swap(next);
+    }
+    // make_deck_name: the first word of the line, upper-cased
+    for (const std::string& l : { std::string("welspecs"), std::string("Poro  1 2"), std::string("swof\t"), std::string("EQUALS"), std::string("a,b"), std::string("") }) {
+        std::string e;
+        for (char c : l) { if (sep(c)) break; e += static_cast<char>(std::toupper(static_cast<unsigned char>(c))); }
+        if (Opm::str::make_deck_name(l) != e) {
+            w << "make_deck_name(" << show(l) << ") = " << show(Opm::str::make_deck_name(l)) << ", the upper-cased first word is " << show(e);
+            return r.verdict(false, w.str());
+        }
+    }
+    // keyword-name case: one keyword of every size class (fixed, flag, data array, table, slash-terminated list,
+    // record-less, terminated only by the next keyword), each name written in lower case in turn, and all at once
+    {
+        const std::vector<std::string> lines = {
+            "RUNSPEC", "DIMENS", " 2 2 1 /", "OIL", "WATER", "GAS", "TABDIMS", " 1 1 /", "GRID", "PORO", " 4*0.25 /", "EQUALS", " 'PERMX' 100 /", "/", "PROPS", "SWOF",
+            " 0 0 1 0", " 1 1 0 0 /", "SCHEDULE", "VFPPROD", " 1 2000 'LIQ' 'WCT' 'GOR' /", " 100 200 /", " 10 /", " 0 /", " 0 /", " 0 /", " 1 1 1 1 50 60 /",
+            "WELSPECS", " 'P' 'G' 1 1 1* 'OIL' /", "/", "SAVE", "TSTEP", " 1 /", "VFPINJ", " 2 2000 'WAT' /", " 100 200 /", " 10 /", " 1 50 60 /", "TSTEP", " 2 /", "END" };
+        auto is_kw = [](const std::string& l) { return !l.empty() && std::isalpha(static_cast<unsigned char>(l[0])); };
+        auto render = [&](const std::vector<bool>& lower, std::string& out) {
+            std::string text;
+            for (std::size_t i = 0; i < lines.size(); ++i) {
+                std::string l = lines[i];
+                if (lower[i]) for (char& c : l) c = static_cast<char>(std::tolower(static_cast<unsigned char>(c)));
+                text += l + "\n";
+            }
+            try {
+                const auto deck = Opm::Parser{}.parseString(text);
+                std::ostringstream os; os << deck; out = os.str();
+                return true;
+            } catch (const std::exception& e) { out = std::string("parse error: ") + e.what(); return false; }
+        };
+        std::string ref;
+        if (!render(std::vector<bool>(lines.size(), false), ref))
+            return r.verdict(false, "the reference deck (upper-case keyword names) does not parse: " + ref.substr(0, 160));
+        for (std::size_t v = 0; v <= lines.size(); ++v) {
+            std::vector<bool> lower(lines.size(), false);
+            if (v == lines.size()) { for (std::size_t i = 0; i < lines.size(); ++i) lower[i] = is_kw(lines[i]); }
+            else { if (!is_kw(lines[v])) continue; lower[v] = true; }
+            std::string got;
+            const bool parsed = render(lower, got);
+            if (!parsed || got != ref) {
+                w << "the deck with " << (v == lines.size() ? std::string("every keyword name") : "keyword " + lines[v]) << " written in lower case "
+                  << (parsed ? "parses to a different Deck" : "does not parse (" + got.substr(0, 120) + ")");
+                return r.verdict(false, w.str());
+            }
+        }
     }
     return r.verdict(true, "strip_comments / trim / getline agree with the reference on every string of length <= 6 over the test alphabet (bounded native search)");
 }
